@@ -70,6 +70,11 @@ def cases(tier, rng):
         else:
             upa_p = upa
         yield {"k": 1803, "args": [ds, sq, nets.pits(ds), _main(ds, upa_p, 0), upa_p, [0], [], [depth]], "group": f"{tag}-pfaf{depth}"}
+        if n <= 40:
+            # fractional areas (quarters of distinct powers of two plus a common integer part: truncation would create ties)
+            upf = [(-9999 * 4 if ds[i] < 0 else sum((2 ** x) for x in range(n) if ds[x] >= 0 and i in _path(ds, x))) for i in range(n)]
+            yield {"k": 1803, "args": [ds, sq, nets.pits(ds), _main(ds, upf, 0), upf, [0], [], [depth]], "call2": {"scale": 2 ** (n + 1)},
+                   "group": f"{tag}-pfaf{depth}-fractional"}
     for t in range(150 if tier == "quick" else 1500):
         nr, nc = rng.randint(2, 7), rng.randint(2, 7)
         flw = nets.random_d8_raster(rng, nr, nc, p_nodata=rng.choice([0, 0.15]))
@@ -132,11 +137,12 @@ def impl(case):
             sc = float((case.get("call2") or {}).get("scale", 1))
             return fin(*call_impl(pb.subbasins_area, arr, sq, ds_array(a[2]), np.array(a[3], dtype=np.float64) / sc, float(a[4][0]) / sc))
         if k == 1803:
+            scp = float((case.get("call2") or {}).get("scale", 1))      # areas below 1: every value a distinct dyadic fraction
             r = fin(*call_impl(pb.subbasins_pfafstetter, np.array(a[2], dtype=np.int32), arr, sq, ds_array(a[3]),
-                               np.array(a[4], dtype=np.float64), None, a[7][0]))
+                               np.array(a[4], dtype=np.float64) / scp, None, a[7][0]))
             if a[7][0] >= 2 and r[0] != [-2]:      # the shallower level, for the refinement rule
                 r2 = fin(*call_impl(pb.subbasins_pfafstetter, np.array(a[2], dtype=np.int32), arr, sq, ds_array(a[3]),
-                                    np.array(a[4], dtype=np.float64), None, a[7][0] - 1))
+                                    np.array(a[4], dtype=np.float64) / scp, None, a[7][0] - 1))
                 r.append(r2[0])
             return r
     flw = pyflwdir.from_array(np.array(call["flw"], dtype=np.uint8).reshape(call["nr"], call["nc"]), ftype="d8")
